@@ -26,7 +26,7 @@
    by the sweep (built-in tables) and by the random user tables of the harness. *)
 From Emmet Require Import lib.Base model.MarkupTokenizer model.MarkupParser model.MarkupConvert
      model.MarkupResolve model.MarkupExpand proofs.SnippetProofs proofs.SnippetSweep
-     proofs.SnippetAcyclic proofs.SnippetAliasParse proofs.SnippetAliasForms proofs.SnippetDecorate.
+     proofs.SnippetAcyclic proofs.SnippetAliasParse proofs.SnippetAliasForms proofs.SnippetDecorate proofs.SnippetChildString.
 
 (* termination, for ALL snippet tables and ALL trees: with the fuel markup_parse supplies
    (number of snippets + 1) the resolver never reports OutOfFuel *)
@@ -421,6 +421,38 @@ Theorem C14_alias_id_string :
     transform_list cfg (map (add_attrs (mc_reverse_attrs cfg) [short_attr s_id c]) resolved).
 Proof. exact alias_id_string. Qed.
 Print Assumptions C14_alias_id_string.
+
+(* `k>c` = `d>c` as STRINGS, end to end (resolved and transformed trees, hence outputs), for all tables.
+   [child_reads_below cfg d c D]: the definition reads as the forest D and the text `d>c` as D with c hung below
+   find_deepest -- a statement about tokenizer + parser + converter alone, true when d ends with an element that is
+   not a text node, with no repeater on its last-child chain and no group at the end; decidable by evaluation
+   for a concrete d (C14_child_string_nonvacuous); NOT proved from a syntactic description of d. *)
+Theorem C14_alias_child_eq_definition_child :
+  forall (cfg : mconfig) (k c d : str) (D R K : list anode),
+    key_text k = true -> key_text c = true ->
+    def_of cfg (Some k) = Some d -> self_free cfg d = true ->
+    mc_jsx cfg = false -> mc_text cfg = WNone -> mc_max_repeat cfg = mc_max_repeat_snip cfg ->
+    child_reads_below cfg d c D ->
+    live cfg (length (mc_snippets cfg)) [] D ->
+    walk_resolve (full_fuel cfg) cfg [] D = Ok R -> walk_resolve (full_fuel cfg) cfg [] [bare c] = Ok K ->
+    markup_parse cfg (k ++ c_gt :: c) = markup_parse cfg (d ++ c_gt :: c).
+Proof. exact alias_child_eq_definition_child. Qed.
+Print Assumptions C14_alias_child_eq_definition_child.
+
+Example C14_child_string_nonvacuous :
+  exists D R K,
+    child_reads_below chs_cfg [100;105;118;46;97;62;119;43;101;109;91;116;61;49;93]%N [98]%N D /\
+    live chs_cfg (length (mc_snippets chs_cfg)) [] D /\
+    walk_resolve (full_fuel chs_cfg) chs_cfg [] D = Ok R /\
+    walk_resolve (full_fuel chs_cfg) chs_cfg [] [bare [98]%N] = Ok K /\
+    self_free chs_cfg [100;105;118;46;97;62;119;43;101;109;91;116;61;49;93]%N = true.
+Proof. exact alias_child_eq_definition_child_nonvacuous. Qed.
+
+(* ... and it fails for a text-only ending: in `p>{hi}>b` the converter makes b a sibling of the text *)
+Example C14_child_reads_below_fails_text :
+  exists D X, parse_def chs_cfg [112;62;123;104;105;125]%N = Ok D /\
+              parse_def chs_cfg [112;62;123;104;105;125;62;98]%N = Ok X /\ X <> attach_deepest D [bare [98]%N].
+Proof. exact child_reads_below_fails_text. Qed.
 
 (* an alias inside a larger abbreviation: siblings resolve independently (with C14_non_alias_kept for
    the ancestors this places the theorems above at any position below non-alias elements) *)
